@@ -311,12 +311,13 @@ Section Model.
 
   (* a sample: bare component or tuple; a component None is Python's None *)
   Inductive out := Bare (v : option value) | Tuple (l : list (option value)).
-  Inductive res := RItems (o : out) | RItemsCtx (o : out) (c : octx) | RErr.
+  (* RErr = KeyError out of ctx[ctx_key]; RIndexErr = the IndexError of __getitem__ for idx < -len *)
+  Inductive res := RItems (o : out) | RItemsCtx (o : out) (c : octx) | RErr | RIndexErr.
 
   Definition norm_idx (st : stack) (idx : Z) : Z := if idx <? 0 then s_len st + idx else idx.
 
-  (* __getitem__ for an int *)
-  Definition getitem_int (st : stack) (m : mwrap) (idx0 : Z) : res :=
+  (* __getitem__ for an int, after the range check of the negative branch *)
+  Definition getitem_core (st : stack) (m : mwrap) (idx0 : Z) : res :=
     let idx := norm_idx st idx0 in
     let c0 : octx := if m_propagate m then Some [] else None in
     match run_fns st (m_fns m) idx c0 with
@@ -328,6 +329,14 @@ Section Model.
         let o := match items with [x] => Bare x | _ => Tuple items end in
         if m_return_ctx m then RItemsCtx o c else RItems o
     end.
+
+  (* __getitem__ for an int:
+       if idx < 0:
+           idx = len(self) + idx
+           if idx < 0: raise IndexError            (fixes/C01_negative_index_range.patch)
+     an index >= len is NOT checked here (an endless balanced KDConcatDataset has no len): it is handed to the loaders *)
+  Definition getitem_int (st : stack) (m : mwrap) (idx0 : Z) : res :=
+    if (idx0 <? 0) && (s_len st + idx0 <? 0) then RIndexErr else getitem_core st m idx0.
 
   Inductive gres := GOne (r : res) | GMany (l : list res) | GValueError.
 
@@ -366,5 +375,5 @@ Section Model.
 End Model.
 
 Arguments Bare {value}. Arguments Tuple {value}.
-Arguments RItems {value}. Arguments RItemsCtx {value}. Arguments RErr {value}.
+Arguments RItems {value}. Arguments RItemsCtx {value}. Arguments RErr {value}. Arguments RIndexErr {value}.
 Arguments GOne {value}. Arguments GMany {value}. Arguments GValueError {value}.
